@@ -55,7 +55,7 @@ Print Assumptions C02_predicate_holds_of_model.
 (* … and a sequential case on which the correspondence check finds no difference IS the model's observation, so
    the predicate holds of the implementation's observation: for C02 bit 1 clear and bit 4 clear imply bit 2 clear. *)
 Theorem C02_agreeing_case_is_the_model : forall c, agree c = true -> Nat.ltb 1 (o_procs (Chk_World.o c)) = false ->
-  c = model_case (Chk_World.w c) (Chk_World.o c) (i_injected c).
+  c = model_case (Chk_World.w c) (Chk_World.o c) (extras_of c).
 Proof. exact agree_is_model. Qed.
 Print Assumptions C02_agreeing_case_is_the_model.
 
